@@ -86,7 +86,7 @@ pub fn run(ctx: &Ctx) -> i32 {
     let (w1, w2) = if th { (8, 6) } else { (7, 5) };
     let mut trees = families::plain(w1);
     let ntrees_plain = trees.len();
-    trees.extend(families::decode_only());
+    trees.extend(families::decode_only()); trees.extend(families::nsn());
     let acc = trees.par_iter().enumerate().with_max_len(1).map(|(ti, m)| {
         let mut acc = Acc::new();
         acc.inc("trees");
